@@ -458,6 +458,18 @@ func cellAliases(cell *ssa.Alloc) []ssa.Value {
 						visit(g.FreeVars[i])
 					}
 				}
+			case *ssa.Return:
+				// a constructor handing the struct's address back: the call's value at every call site is the same address
+				if curProg != nil {
+					fn := x.Parent()
+					if len(x.Results) == 1 && x.Results[0] == addr && fn.Parent() == nil {
+						for _, cs := range curProg.callers[fn] {
+							if cv, ok := cs.Call.(*ssa.Call); ok {
+								visit(cv)
+							}
+						}
+					}
+				}
 			case *ssa.Store:
 				// the address itself kept in a local (a captured pointer parameter is spilled): loads of that local alias it
 				if x.Val == addr {
@@ -956,15 +968,49 @@ func fieldOfAddr(base ssa.Value, i int, at ssa.Instruction, d int) ([]originVal,
 				return fieldOfAddr(b, i, at, d+1)
 			}
 		}
+		if cl, isCall := base.(*ssa.Call); isCall && curProg != nil {
+			// pointer returned by a module constructor (newPlanCompiler(...)): the struct it allocates
+			if cal := cl.Call.StaticCallee(); cal != nil && cal.Blocks != nil && curProg.InModule(cal) && cal.Signature.Results().Len() == 1 {
+				var out []originVal
+				for _, r := range returnsOf(cal) {
+					rv := returnedValue(r, 0)
+					if isNilConst(rv) {
+						continue
+					}
+					sub, ok := fieldOfAddr(rv, i, at, d+1)
+					if !ok {
+						return nil, false
+					}
+					out = append(out, sub...)
+				}
+				return out, true
+			}
+		}
 		if prm, isPrm := base.(*ssa.Parameter); isPrm && curProg != nil {
 			if b, ok := curProg.boundRecv[prm]; ok {
 				return fieldOfAddr(b, i, at, d+1)
 			}
-			// pointer parameter of a private helper with one call site
-			if sites := curProg.callers[prm.Parent()]; len(sites) == 1 {
-				if idx := paramIndex(prm); idx >= 0 && idx < len(sites[0].Call.Common().Args) {
-					return fieldOfAddr(sites[0].Call.Common().Args[idx], i, at, d+1)
+			// pointer parameter of a helper / receiver of a method: the struct each call site hands in
+			if sites := curProg.callers[prm.Parent()]; len(sites) > 0 && len(sites) <= 8 {
+				idx := paramIndex(prm)
+				var out []originVal
+				seenV := map[ssa.Value]bool{}
+				for _, cs := range sites {
+					if idx < 0 || idx >= len(cs.Call.Common().Args) {
+						return nil, false
+					}
+					sub, ok := fieldOfAddr(cs.Call.Common().Args[idx], i, at, d+1)
+					if !ok {
+						return nil, false
+					}
+					for _, o := range sub {
+						if !seenV[o.V] {
+							seenV[o.V] = true
+							out = append(out, o)
+						}
+					}
 				}
+				return out, true
 			}
 		}
 		return nil, false
@@ -1004,7 +1050,7 @@ func fieldOfAddr(base ssa.Value, i int, at ssa.Instruction, d int) ([]originVal,
 					return nil, false
 				}
 				out = append(out, sub...)
-			case *ssa.UnOp, *ssa.DebugRef, *ssa.MakeClosure:
+			case *ssa.UnOp, *ssa.DebugRef, *ssa.MakeClosure, *ssa.Return, *ssa.Phi:
 			case ssa.CallInstruction:
 				cal := y.Common().StaticCallee()
 				if cal == nil || curProg == nil || !curProg.InModule(cal) {
